@@ -642,7 +642,7 @@ func (w *c19World) block(gap time.Duration) {
 	var gs []string
 	for _, g := range w.app.Rewardskeeper.GetAllGauges(w.ctx) {
 		gs = append(gs, strings.Join([]string{u(g.Id), g.DepositAmount.Denom, g.DepositAmount.Amount.String(), g.DistributedAmount.Amount.String(),
-			u(g.TriggeredCount), u(g.TotalTriggers), strconv.FormatBool(g.IsActive), strconv.FormatBool(g.ForSwapFee), i64(int64(g.TriggerDuration)), i64(g.StartTime.UnixNano())}, ":"))
+			u(g.TriggeredCount), u(g.TotalTriggers), strconv.FormatBool(g.IsActive), strconv.FormatBool(g.ForSwapFee), i64(int64(g.TriggerDuration)), i64(g.StartTime.UnixNano()), g.DistributedAmount.Denom}, ":"))
 		if g.ForSwapFee {
 			if g.DepositAmount.IsPositive() {
 				tr.Count("sfgauge:holds-coins")
@@ -1155,6 +1155,7 @@ func TestC19(t *testing.T) {
 	c19WitnessLendTruncatedTotal(t, tr)
 	c19LendSameBlockCase(t, tr)
 	c19WitnessSfLeak(t, tr)
+	c19SfDenomChangeCase(t, tr)
 	c19GuardCase(t, tr)
 	c19MasterChildCase(t, tr)
 	c19Split(tr, rng)
